@@ -362,7 +362,8 @@ def pool_run(fn, items, is_bad, stop_after=10, procs=None):
     _POOL_FN = fn
     _POOL_STOP = ctx.Event()
     chunksize = max(1, min(64, len(items) // (procs * 16)))
-    pool = ctx.Pool(procs)
+    from .common import _limit_worker_memory
+    pool = ctx.Pool(procs, initializer=_limit_worker_memory)
     try:
         for i, r in pool.imap_unordered(_pool_guarded, list(enumerate(items)), chunksize=chunksize):
             if r is None:
